@@ -3,7 +3,7 @@ import json
 import os
 LEVEL = "model_checking"
 MANIFEST = {
-    "engine": "tlc TreeJail (attack scenarios) + vhjail c26 (raw tree objects, recording billy fs below the worktree wrapper) + tlc TreeJailTrace",
+    "engine": "tlc TreeJail (attack scenarios) + tlc TreeJailHist (histories on one handle: directory -> symlink swaps between operations) + vhjail c26 (raw tree objects, recording billy fs below the worktree wrapper) + tlc TreeJailTrace",
     "technique": "TLC enumerates attack scenarios (malicious tree-entry paths incl. .git case/NTFS/HFS disguises and '..', symlink entries, planted symlinks, symlink-then-directory swaps) x protectNTFS x protectHFS; trees are written as raw objects; each Worktree API call's ordered filesystem requests are replayed in TLA+ over an evolving symlink table and every request must resolve (lexically and through links) inside the worktree and outside .git; sentinel hashes as independent observation",
     "text": "Scenario space: entry paths of <= 2 (quick) / <= 3 (thorough) components over 13 component classes, 5 link targets, 7 scenario shapes (incl. dangling planted links in the final position), 4 protect settings; a VERIF_SEED-stratified sample per scenario key is run (quick 400, thorough 4000 scenarios) through Checkout(force), CherryPick (onto a harmless base commit), Reset(hard), Status, Add, Restore, Move, Remove, Clean; plus 384 submodule scenarios (.gitmodules name x path x planted symlink; quick: 120 sampled) through Submodules(), Submodule.Init and Submodule.Repository with the storage filesystem recorded too.",
     "note": "Linux/osfs only: NTFS/HFS spellings are judged by name (a forbidden component must never be created or traversed when the corresponding protect flag is on), not by a folding filesystem. Pull and Submodule.Update (needs a clonable remote) are not driven. A final '.git' component below a subdirectory (gitlink file position) is tolerated. Only calls that reach the billy filesystem are seen.",
@@ -13,6 +13,12 @@ CFG = """CONSTANTS MaxDepth = %d EmitRows = TRUE
 INIT Init
 NEXT Next
 INVARIANTS BenignIsOK BadSingleIsNotOK
+CHECK_DEADLOCK FALSE
+"""
+HCFG = """CONSTANTS MaxDepth = 1 EmitRows = FALSE EmitHist = TRUE MaxProbes = %d
+INIT HInit
+NEXT HNext
+INVARIANTS ThroughIffEscapes LexicallyInnocent KindMonotone Emit
 CHECK_DEADLOCK FALSE
 """
 TCFG = """CONSTANTS MaxDepth = 1 EmitRows = FALSE
@@ -27,6 +33,14 @@ def run(ctx):
     import vlib
     md = 3 if ctx.thorough else 2
     r = ctx.tlc("TreeJail", cfg_text=CFG % md, timeout=1500)
+    # stateful form: histories on one long-lived handle in which the kind of a component changes between operations
+    h = ctx.tlc("TreeJailHist", cfg_text=HCFG % (2 if ctx.thorough else 1), workers=1, timeout=900)
+    hists = ctx.printed_json(h)
+    if not hists:
+        raise vlib.ToolingError("C26: TreeJailHist printed no histories")
+    with open(os.path.join(r.dir, "treejail_hist.ndjson"), "w") as f:
+        for x in hists:
+            f.write(json.dumps(x) + "\n")
     rep = ctx.vh("c26", [os.path.join(r.dir, "treejail_rows.ndjson"), r.dir], pkg="vhjail", timeout=3000)
     t = ctx.tlc("TreeJailTrace", cfg_text=TCFG, timeout=1500)
     cases = json.load(open(os.path.join(r.dir, "c26_cases.json")))
@@ -69,6 +83,7 @@ def run(ctx):
     ctx.cov["exhaustive"] = False
     ctx.cov["rule"] = ("scenarios of spec/rules/TreeJail.tla are TLC states; a seed-stratified sample per scenario key is materialised as raw objects and driven through "
                        "the worktree API; distinct = distinct scenarios; %d API-call traces with %d filesystem requests replayed by TLC, %d requests rejected" % (nver, nreq, nbad))
+    ctx.cov["histories_enumerated_by_tlc"] = len(hists)
     ctx.cov["api_traces_judged_by_tlc"] = nver
     ctx.cov["fs_requests_judged_by_tlc"] = nreq
     ctx.cov["fs_requests_rejected"] = nbad
